@@ -52,6 +52,13 @@ def load_enum_decls(src_dir):
     return decls
 
 
+@dataclass(frozen=True)
+class TakeRd:
+    """Read::take(n) over a reference to a reader."""
+    inner: object
+    limit: object
+
+
 def deref_all(ex, st, v):
     while isinstance(v, tuple) and v and v[0] in ("ref", "refval"):
         v = ex.deref(v, st)
@@ -94,6 +101,36 @@ def make_models():
         ex.write_ref(st, bref, new)
         ex.write_ref(st, sref, replace(s, pos=s.pos + n, arrived=arrived))
         return enum("Ok", UNIT)
+
+    def m_by_ref(ex, st, args, dest_ty, fname):
+        return args[0]
+
+    def m_take(ex, st, args, dest_ty, fname):
+        return TakeRd(args[0], args[1])
+
+    def m_take_read_to_end(ex, st, args, dest_ty, fname):
+        tref = ref_to(ex, st, args[0])
+        t = ex.deref(tref, st)
+        sref = ref_to(ex, st, t.inner)
+        s = ex.deref(sref, st)
+        vref = ref_to(ex, st, args[1])
+        vec = ex.deref(vref, st)
+        lim = t.limit
+        if is_sym(lim):
+            lim = z3.simplify(lim)
+            if not (z3.is_bv_value(lim) or z3.is_int_value(lim)):
+                raise ExecError("take(n).read_to_end with symbolic n")
+            lim = lim.as_long()
+        n = min(lim, len(s.inp) - s.pos)
+        arrived = s.arrived
+        if arrived is not None and s.pos + n > arrived:
+            arrived = len(s.inp)
+        ex.write_ref(st, vref, VecM(tuple(vec.items) + tuple(s.inp[s.pos:s.pos + n])))
+        ex.write_ref(st, sref, replace(s, pos=s.pos + n, arrived=arrived))
+        ex.write_ref(st, tref, TakeRd(t.inner, lim - n))
+        if n < lim and not s.eof:
+            return enum("Err", ("opaque", "io::Error:TimedOut"))       # a silent peer: the blocking read runs into the read timeout
+        return enum("Ok", n)
 
     def m_read(ex, st, args, dest_ty, fname):
         sref = ref_to(ex, st, args[0])
@@ -382,6 +419,9 @@ def make_models():
         M(r"^<&mut humphrey::stream::Stream as std::io::Read>::read_exact$", m_read_exact),
         M(r"^<humphrey::stream::Stream as std::io::Write>::write_all$", m_write_all),
         M(r"^<humphrey::stream::Stream as std::io::Read>::read$", m_read),
+        M(r"^<.* as std::io::Read>::by_ref$", m_by_ref),
+        M(r"^<.* as std::io::Read>::take$", m_take),
+        M(r"^<std::io::Take<.*> as std::io::Read>::read_to_end$", m_take_read_to_end),
         M(r"^humphrey::stream::Stream::set_nonblocking$", m_set_nb(True)),
         M(r"^humphrey::stream::Stream::set_blocking$", m_set_nb(False)),
         M(r"^Result::<\(\), std::io::Error>::is_err$", m_is_err),
@@ -390,7 +430,7 @@ def make_models():
         M(r"^<ErrorKind as PartialEq>::eq$", m_kind_eq),
         M(r"^<\[u8; \d+\] as IndexMut<std::ops::RangeFrom<usize>>>::index_mut$", m_index_from),
         M(r"^<Result<Frame, WebsocketError> as Into<Restion<Frame, WebsocketError>>>::into$", m_result_into_restion),
-        M(r"^Result::<\(\), std::io::Error>::map_err::<WebsocketError, ", m_map_err),
+        M(r"^Result::<.*, std::io::Error>::map_err::<WebsocketError, ", m_map_err),
         M(r"^Option::<&Frame>::map::<bool, ", m_opt_map),
         M(r"^Option::<bool>::unwrap_or$", m_opt_unwrap_or),
         M(r"^Vec::<(u8|Frame)>::new$", m_vec_new),
